@@ -124,6 +124,8 @@ def triple_cases():
             step = 27 if len(mats) > 27 else len(mats)
             for i0 in range(0, len(mats), step):
                 out.append({"k": "triples", "D": D, "N": N, "i0": i0, "i1": min(len(mats), i0 + step)})
+            if D == 2:
+                out.append({"k": "dupnames", "N": N})
             # names omitted (the default names are given), and the same under other naming options
             for pre, omit in (("q", True), ("z", False), ("z", True), ("var", True), ("x_", False)):
                 out.append({"k": "triples", "D": D, "N": N, "i0": 0, "i1": min(len(mats), 9), "pre": pre, "omit": omit})
@@ -192,6 +194,34 @@ def run_triples(case, R):
                     else:
                         R.outcome((frozenset(krows), knames, value.key()))
     R.sample({"exponents": [list(e) for e in mats[-1]], "names": list(names), "flag_configs": len(FLAGCFG)})
+
+
+def run_dupnames(case, R):
+    """duplicate indeterminate names are rejected whatever the terms and the retain flags are (also when the duplicated
+    column is unused and would be dropped)"""
+    N = case["N"]
+    for exps in exps_matrices(2, N)[::1 if N < 3 else 13]:
+        R.state(("dupnames", N, exps))
+        for coefs in itertools.product(COEF0, repeat=N):
+            for cfg in FLAGCFG:
+                kw = {}
+                if cfg["flags"][0] is not None:
+                    kw = {"retain_coefficients": cfg["flags"][0], "retain_names": cfg["flags"][1]}
+                gl = {}
+                if cfg["glob"] is not None:
+                    gl = {"retain_coefficients": cfg["glob"][0], "retain_names": cfg["glob"][1]}
+                for names in (("q1", "q1"), ["q3", "q3"]):
+                    for ctor, f in (("polynomial_from_attributes", lambda: numpoly.polynomial_from_attributes([list(e) for e in exps], list(coefs), names, **kw)),
+                                    ("ndpoly.from_attributes", lambda: numpoly.ndpoly.from_attributes([list(e) for e in exps], list(coefs), names, **kw))):
+                        R.tr()
+                        tags = [f"rc={cfg['eff'][0]}", f"rn={cfg['eff'][1]}", "duplicate_names"]
+                        try:
+                            with numpoly.global_options(**gl):
+                                p = f()
+                        except Exception:  # noqa: BLE001
+                            R.outcome(("dupnames", exps, coefs, ctor, str(cfg["eff"])))
+                            continue
+                        R.fail(ctor, "accepted-duplicates", f"duplicate names {names} accepted for exponents {exps} coefficients {coefs} {kw} {gl}: {p!r}"[:400], tags=tags)
 
 
 def run_triple1(case, R):
@@ -418,6 +448,8 @@ def run_case(case, R):
     k = case["k"]
     if case.get("via") == "C01" or k == "expr":
         C01.run_case(case, R, extra_check=extra_check)
+    elif k == "dupnames":
+        run_dupnames(case, R)
     elif k == "triples":
         run_triples(case, R)
     elif k == "triple1":
